@@ -5,6 +5,11 @@ import json, subprocess
 LOOPNOTE = 'Trusts: A1 token contract (lower-case tag names, exact serialiser/tokeniser round trip), sanitizeAttrs replaced by an arbitrary-result stub, policy tables of at most 2 entries per kind (an upper bound that is general for one step: one step looks up one name per table), z3 5.1 / cvc5 1.0, go/ssa semantics as interpreted.'
 
 CLAIMED = {
+ "C10": dict(
+   text="Unit-level symbolic execution of the real sanitizeStyles with douceur's parser replaced by an arbitrary declaration list (up to 2/3 declarations with free property and value), a symbolic rule set (one symbolic property key in the element scope - explicit, element-pattern or absent - and one in the global scope; matcher lists mixing opaque handlers, symbolic enumerations and opaque patterns). SMT decides on every path that the emitted style equals the '; '-join, in order, of exactly the declarations whose lower-cased, prefix-stripped property has a matcher accepting the lower-cased, escape-decoded value, and that a parse error or an empty result removes the attribute. A second harness decides the routing in sanitizeAttrs (style rules present => style filter, else generic attribute rules).",
+   note="Trusts: A5 (douceur returns an error or an arbitrary declaration list); strings.ToLower and removeUnicode as uninterpreted symbols shared by code and oracle (removeUnicode's browser-exactness is outside the claim, see DESIGN.md); z3 5.1 / cvc5 1.0; go/ssa semantics as interpreted.",
+   technique="symbolic execution of go/ssa + SMT (unit harness with nondeterministic parser stub and symbolic style rules)", design="5 C10"),
+
  "C03": dict(
    text="Unit-level symbolic execution of the real sanitizeAttrs + validURL for each of the 17 (element, attribute) positions of the statement, with a symbolic scheme allowlist (symbolic scheme keys, each unconditional or guarded by 1-2 opaque custom checks), optional opaque scheme pattern, relative-URL switch and optional opaque src rewriter, on a free raw value. net/url is an uninterpreted function (A3). SMT decides on every path that a surviving value has no white space (data: URIs excepted), parses, has an allowlisted and approved scheme or is a relative reference with relative URLs allowed, and is emitted in normal form / as the rewriter's result. Counterexamples are made concrete by fixing the raw value to candidate URLs with the facts net/url really yields, and replayed through the real code.",
    note="Trusts: A3 (net/url as uninterpreted ok/scheme/host/normal-form with the axioms listed in DESIGN.md, incl. rejection of control characters); one attribute per tag; scheme table of 1 (quick) / 2 (thorough) entries; z3 5.1 / cvc5 1.0; go/ssa semantics as interpreted.",
